@@ -49,9 +49,9 @@ void operator delete[](void *p, size_t) noexcept { __real_free(p); }
 static int g_crashFd = 1;
 static void crash_line(const char *cls, int sig) {
   char b[512];
-  int n = snprintf(b, sizeof b, "\nCRASH class=%s signal=%d seed=%llu run=%d op=%d opname=%s props=%s prior=%s\n", cls, sig,
+  int n = snprintf(b, sizeof b, "\nCRASH class=%s signal=%d seed=%llu run=%d op=%d opname=%s props=%s prior=%s fault=%d:%d\n", cls, sig,
                    (unsigned long long)g_crash.seed, g_crash.runIndex, G.opIndex, G.opName ? G.opName : "?",
-                   props_str(G.baseProps | G.ctxProps | P(2)).c_str(), G.viol.set() ? vkind_name(G.viol.kind) : "-");
+                   props_str(G.baseProps | G.ctxProps | P(2)).c_str(), G.viol.set() ? vkind_name(G.viol.kind) : "-", g_crash.faultKind, g_crash.faultK);
   if (n > 0) { ssize_t r = write(g_crashFd, b, (size_t)n); (void)r; }
 }
 static void on_signal(int sig) {
@@ -272,6 +272,7 @@ static int cmd_enum(int argc, char **argv) {
       for (int fk = 0; fk < 400; ++fk) {
         Plan q = p;
         q.ops.back().fkind = kind; q.ops.back().fk = fk;
+        g_crash.faultKind = kind; g_crash.faultK = fk;
         alarm(20);
         uint64_t fe0 = st.faultsFiredElem, fa0 = st.faultsFiredAlloc;
         RunOut out = e->run(q, &st, false);
